@@ -46,6 +46,9 @@ type DBRow struct {
 	Name         string
 	Copies       int
 	FirstDiffers bool
+	// Spelled: the stored declaration keeps the SPELLING of its sources' start / stop
+	// (SrcRef.StartText / StopText) instead of the numbers a re-marshalled struct would have
+	Spelled bool `json:",omitempty"`
 	// OmitAgg: the stored declaration has NO filter_agg (the dashboard stores what the user
 	// sent; ValidateFix, which turns an omitted filter_agg into "or", runs on the file only)
 	OmitAgg bool `json:",omitempty"`
@@ -278,6 +281,29 @@ func (w *World) connect(migrate bool) error {
 		if node == nil {
 			return fmt.Errorf("task for unknown source %q", info.SrcName)
 		}
+		// load-time oracle: the task's range and chain id are the DECIMAL values the
+		// configuration states, however it spells them (number, quoted, zero-padded, $ENV)
+		for _, sr := range spec.Sources {
+			if sr.Name != info.SrcName {
+				continue
+			}
+			if info.Start != sr.Start || info.Stop != sr.Stop {
+				say := func(text string, v uint64) string {
+					if text != "" {
+						return text
+					}
+					return fmt.Sprint(v)
+				}
+				w.addConfigAnomaly(fmt.Sprintf("the task of %s/%s runs with start %d stop %d; the configuration says start %s stop %s, i.e. %d and %d",
+					info.SrcName, info.IGName, info.Start, info.Stop, say(sr.StartText, sr.Start), say(sr.StopText, sr.Stop), sr.Start, sr.Stop))
+				h.Info.Start, h.Info.Stop = sr.Start, sr.Stop // the dynamic oracles judge against the configured range
+			}
+		}
+		for _, ss := range w.Spec.Srcs {
+			if ss.Name == info.SrcName && ss.ChainID != info.ChainID {
+				w.addConfigAnomaly(fmt.Sprintf("the task of %s/%s runs with chain id %d; the configuration says %s = %d", info.SrcName, info.IGName, info.ChainID, ss.ChainIDText, ss.ChainID))
+			}
+		}
 		if w.Spec.Real {
 			t.VerifTaskSetSource(node.RealSourceFor(h.ID, spec, info.SrcName, t.VerifTaskSource()))
 		} else {
@@ -304,6 +330,16 @@ func (w *World) connect(migrate bool) error {
 	return nil
 }
 
+func (w *World) addConfigAnomaly(msg string) {
+	for _, a := range w.ConfigAnomalies {
+		if a == msg {
+			return
+		}
+	}
+	w.ConfigAnomalies = append(w.ConfigAnomalies, msg)
+	sort.Strings(w.ConfigAnomalies)
+}
+
 // moveToDatabase takes the integrations named in Spec.DBRows out of the file
 // configuration and stores them (after ValidateFix, as JSON) in
 // shovel.integrations, the way the dashboard saves them.
@@ -328,6 +364,20 @@ func (w *World) moveToDatabase() error {
 		last, err := json.Marshal(stored)
 		if err != nil {
 			return err
+		}
+		if row.Spelled {
+			var m map[string]any
+			if err := json.Unmarshal(last, &m); err != nil {
+				return err
+			}
+			for _, ig := range w.Spec.IGs {
+				if ig.Name == row.Name {
+					m["sources"] = ig.jsonConfig()["sources"]
+				}
+			}
+			if last, err = json.Marshal(m); err != nil {
+				return err
+			}
 		}
 		first := last
 		if row.FirstDiffers {
@@ -369,6 +419,7 @@ func (w *World) moveToDatabase() error {
 // its declaration references through filter_ref (event inputs and block fields).
 func (w *World) checkDependencies() {
 	w.ConfigAnomalies = nil
+	written := refsInJSON(w.JSON)
 	for i := range w.Spec.IGs {
 		spec := &w.Spec.IGs[i]
 		var got []string
@@ -389,11 +440,51 @@ func (w *World) checkDependencies() {
 			sort.Strings(ks)
 			return fmt.Sprint(ks)
 		}
-		if set(got) != set(spec.DeclaredRefs()) {
+		// what the shape declares and what the configuration TEXT says (filter_ref objects at
+		// any depth: event inputs, components of tuple inputs, block fields) must agree
+		declared := append(append([]string{}, spec.DeclaredRefs()...), written[spec.Name]...)
+		if set(got) != set(declared) {
 			w.ConfigAnomalies = append(w.ConfigAnomalies, fmt.Sprintf("ValidateFix: integration %q references %s through filter_ref but Dependencies = %s",
-				spec.Name, set(spec.DeclaredRefs()), set(got)))
+				spec.Name, set(declared), set(got)))
 		}
 	}
+}
+
+// refsInJSON lists, per integration of the configuration text, the integrations named by
+// filter_ref objects at ANY depth of its event inputs (components of tuple inputs included)
+// and of its block fields.
+func refsInJSON(raw string) map[string][]string {
+	out := map[string][]string{}
+	var root struct {
+		Integrations []map[string]any `json:"integrations"`
+	}
+	if json.Unmarshal([]byte(raw), &root) != nil {
+		return out
+	}
+	var walk func(name string, v any)
+	walk = func(name string, v any) {
+		switch x := v.(type) {
+		case map[string]any:
+			if fr, ok := x["filter_ref"].(map[string]any); ok {
+				if ig, _ := fr["integration"].(string); ig != "" {
+					out[name] = append(out[name], ig)
+				}
+			}
+			for _, k := range []string{"inputs", "components"} {
+				walk(name, x[k])
+			}
+		case []any:
+			for _, e := range x {
+				walk(name, e)
+			}
+		}
+	}
+	for _, ig := range root.Integrations {
+		name, _ := ig["name"].(string)
+		walk(name, ig["event"])
+		walk(name, ig["block"])
+	}
+	return out
 }
 
 // Reconfigure models a restart of the process with another batch size /
